@@ -20,6 +20,14 @@ attribute equals the register it caches: 15 equations) ∧ `CfgOk` ∧ the ghost
 CE is part of the abstract state (the `listen` setter and the carrier wave test document it); time
 is not (`spiStep_cfg`: no configuration register depends on the clock, the FIFOs or the air).
 Per-method lemmas: `NrfProofs/C03/*.lean`.
+
+Getter RETURN VALUES (review item): `getterDoc` writes down, per getter of the alphabet (21), the
+documented decoding of the registers; `C03_getter_returns`: after any history the value the real
+getter code returns is `getterDoc` of the radio's registers, and the getter (shadow-reading or
+SPI-reading) leaves the abstract state equal; `reads` / `C03_getter_reads` / `C03_getter_stable`: a getter
+keeps returning the same value across any calls that own none of the fields it reads (for `crc`:
+CRC bits and auto-ack mask).  All of this is, like the rest of C03, about the configuration part
+`cfgOf` of the chip.
 -/
 import NrfProofs.C03.History
 import NrfProofs.C03.Init
@@ -235,6 +243,180 @@ theorem C03_roundtrip (a : CfgSt) (ha : CfgOk a.r) :
     (∀ b a', docStep (.setListen b) a = .ok (a', .unit) → docStep .getListen a' = .ok (a', .bool b)) :=
   roundtrip a ha
 
+/-! ### getter RETURN VALUES after any history (review item: `C03_getter_agrees` is about fields) -/
+
+/-- **The documented decoding of the radio's configuration registers `r` by each getter of the
+    alphabet** (data-sheet bit fields, written here explicitly and not via `docStep`): what the
+    documentation says the getter returns when the registers hold `r`.  `none`: the call is not a
+    getter.  The 21 getters: `channel`, `data_rate`, `pa_level`, `is_lna_enabled`, `crc`,
+    `address_length`, `ard`, `arc`, `get_auto_retries()`, `auto_ack`, `get_auto_ack(p)`,
+    `dynamic_payloads`, `get_dynamic_payloads(p)`, `payload_length`, `get_payload_length(p)`, `ack`,
+    `allow_ask_no_ack`, `power`, `listen`, `address(i)`, `is_plus_variant`. -/
+def getterDoc (r : Radio) : Call → Option (Except PyErr Ret)
+  | .getChannel => some (.ok (.nat r.rfCh))                                    -- RF_CH
+  | .getDataRate => some (.ok (.nat (rateOf r.rfSetup)))                       -- RF_SETUP bits 5, 3
+  | .getPaLevel => some (.ok (.int ((field r.rfSetup 1 2 : Int) * 6 - 18)))    -- RF_SETUP bits 2:1
+  | .isLnaEnabled => some (.ok (.bool (bitOf r.rfSetup 0)))                    -- RF_SETUP bit 0
+  | .getCrc =>                                                                 -- CONFIG bits 3, 2; EN_AA forces CRC
+    some (.ok (.nat (if r.enAA ≠ 0 ∨ bitOf r.config 3 then (if bitOf r.config 2 then 2 else 1) else 0)))
+  | .getAddressLength => some (.ok (.nat (r.setupAw + 2)))                     -- SETUP_AW
+  | .getArd => some (.ok (.nat (field r.setupRetr 4 4 * 250 + 250)))           -- SETUP_RETR bits 7:4
+  | .getArc => some (.ok (.nat (field r.setupRetr 0 4)))                       -- SETUP_RETR bits 3:0
+  | .getAutoRetries => some (.ok (.pair (field r.setupRetr 4 4 * 250 + 250) (field r.setupRetr 0 4)))
+  | .getAutoAck => some (.ok (.nat r.enAA))                                    -- EN_AA
+  | .getAutoAckPipe p => some (if pipeOk p then .ok (.bool (bitOf r.enAA p.toNat)) else .error .indexError)
+  | .getDynamicPayloads => some (.ok (.nat r.dynpd))                           -- DYNPD
+  | .getDynamicPayloadsPipe p =>
+    some (if pipeOk p then .ok (.bool (bitOf r.dynpd p.toNat)) else .error .indexError)
+  | .getPayloadLengthAttr => some (.ok (.nat (r.rxPw.getD 0 0)))               -- RX_PW_P0
+  | .getPayloadLength p =>                                                     -- RX_PW_Pp
+    some (if pipeOk p then .ok (.nat (r.rxPw.getD p.toNat 0)) else .error .indexError)
+  | .getAck =>                                                                 -- FEATURE bits 1, 2; pipe 0
+    some (.ok (.bool (bitOf r.feature 1 && bitOf r.feature 2 && bitOf r.enAA 0 && bitOf r.dynpd 0)))
+  | .getAllowAskNoAck => some (.ok (.bool (bitOf r.feature 0)))                -- FEATURE bit 0
+  | .getPower => some (.ok (.bool (bitOf r.config 1)))                         -- CONFIG bit 1
+  | .getListen => some (.ok (.bool (bitOf r.config 1 && bitOf r.config 0)))    -- CONFIG bits 1, 0
+  | .address i =>
+    some (if i > 5 then .error .indexError else if i < 0 then .ok (.bytes r.txAddr)
+          else .ok (.bytes (pipeAddr r i.toNat)))
+  | .isPlusVariant => some (.ok (.bool r.plus))
+  | _ => none
+
+/-- `getterDoc` is what `docStep` documents for the getters: the result, and **no change of the
+    abstract state**; getters are in the domain on every chip -/
+theorem C03_getterDoc_docStep (g : Call) (a : CfgSt) (v : Except PyErr Ret) (h : getterDoc a.r g = some v) :
+    g.dom a.r.plus ∧
+    (∀ ret, v = .ok ret → docStep g a = .ok (a, ret)) ∧ (∀ e, v = .error e → docStep g a = .error e) := by
+  cases g <;> simp only [getterDoc, Option.some.injEq, reduceCtorEq] at h <;> subst h <;>
+    refine ⟨trivial, ?_, ?_⟩ <;> intro x hx <;> simp only [docStep, paOf, crcOf, ardOf, arcOf, ackOf] at hx ⊢ <;>
+    first
+      | (cases hx <;> rfl)
+      | (split at hx <;> first | (cases hx <;> simp only [*, ↓reduceIte]; done) |
+          (split at hx <;> (cases hx <;> simp only [*, ↓reduceIte]; done)))
+
+/-- **C03, getter return values after any history.**  From any state satisfying the invariant (e.g.
+    the one `__init__` leaves on any chip, `C03_init_inv`), after ANY sequence `cs` of calls of the
+    46-call alphabet (no length bound, rejected calls included), for EVERY getter `g` of the alphabet
+    (the 21 for which `getterDoc` is defined — shadow-reading ones like `channel` and SPI-reading
+    ones like `crc`, `ack`, `listen`, `power`, `data_rate`, `pa_level`, `is_lna_enabled`, `arc`, `ard`,
+    `address_length`, `get_payload_length`, `address`):
+    * the value (or documented `IndexError`) the getter **returns** is `getterDoc` of the
+      configuration registers the radio holds at that moment — which are the documented ones
+      `(docRun cs s.abs).2.r`;
+    * the getter call leaves the abstract state — every configuration register of the chip, CE, the
+      chip variant, the violation log, the ghost pipe-0 address — **equal** to what it was, keeps the
+      invariant (so every shadow still equals its register) and touches no other radio.
+    Scope: configuration registers as `cfgOf` sees them (STATUS flags / FIFOs / OBSERVE_TX are not
+    part of `abs`, as everywhere in C03). -/
+theorem C03_getter_returns (g : Call) (cs : List Call) (s : DrvState) (h : Inv s)
+    (hd : ∀ c ∈ cs, c.dom s.cfg.plus) :
+    let s' := (runCalls cs s).2
+    s'.cfg = (docRun cs s.abs).2.r ∧
+    ∀ v, getterDoc s'.cfg g = some v →
+      (exec (runCall g) s').1 = v ∧ (exec (runCall g) s').2.abs = s'.abs ∧
+      Inv (exec (runCall g) s').2 ∧ (∀ j, j ≠ s.d.rid → (exec (runCall g) s').2.cfgAt j = s.cfgAt j) := by
+  intro s'
+  obtain ⟨k1, _, k3, k4⟩ := C03_history cs s h hd
+  have hrid : s'.d.rid = s.d.rid := (history cs s h hd).2.2.2.2
+  refine ⟨congrArg CfgSt.r k3, ?_⟩
+  intro v hv
+  obtain ⟨hdom, hok, herr⟩ := C03_getterDoc_docStep g s'.abs v hv
+  obtain ⟨s1, s2, s3, s4⟩ := C03_step g s' k1 hdom
+  have hfr : ∀ j, j ≠ s.d.rid → (exec (runCall g) s').2.cfgAt j = s.cfgAt j := by
+    intro j hj
+    rw [s4 j (by rw [hrid]; exact hj)]
+    exact k4 j hj
+  cases v with
+  | ok ret => exact ⟨(s2 _ _ (hok ret rfl)).1, (s2 _ _ (hok ret rfl)).2, s1, hfr⟩
+  | error e => exact ⟨(s3 _ (herr e rfl)).1, (s3 _ (herr e rfl)).2, s1, hfr⟩
+
+/-- the fields (`Field`, `obs`) a getter's documented value is computed from.  `crc` reads the CRC bits
+    AND the auto-ack mask, `listen` reads PWR_UP and PRIM_RX, `ack` reads four fields — which is why
+    a call that does not own `crcBits` can change what `crc` returns. -/
+def reads : Call → List Field
+  | .getChannel => [.channel]
+  | .getDataRate => [.dataRate]
+  | .getPaLevel => [.paLevel]
+  | .isLnaEnabled => [.lna]
+  | .getCrc => [.crcBits, .autoAck]
+  | .getAddressLength => [.addressLength]
+  | .getArd => [.ard]
+  | .getArc => [.arc]
+  | .getAutoRetries => [.ard, .arc]
+  | .getAutoAck => [.autoAck]
+  | .getAutoAckPipe _ => [.autoAck]
+  | .getDynamicPayloads => [.dynamicPayloads]
+  | .getDynamicPayloadsPipe _ => [.dynamicPayloads]
+  | .getPayloadLengthAttr => [.payloadLengths]
+  | .getPayloadLength _ => [.payloadLengths]
+  | .getAck => [.ackPayloads, .enDpl, .autoAck, .dynamicPayloads]
+  | .getAllowAskNoAck => [.askNoAck]
+  | .getPower => [.power]
+  | .getListen => [.power, .role]
+  | .address _ => [.txAddr, .rxAddr0, .rxAddr1, .rxAddrN]
+  | _ => []
+
+theorem C03_crc_bits : ∀ x, x < 128 → ∀ y, y < 128 → field x 2 2 = field y 2 2 →
+    bitOf x 3 = bitOf y 3 ∧ bitOf x 2 = bitOf y 2 := by decide +kernel
+
+/-- a getter's documented value depends only on the fields it `reads` (and, for `is_plus_variant`,
+    on the chip variant) -/
+theorem C03_getter_reads (g : Call) (r r' : Radio) (hr : CfgOk r) (hr' : CfgOk r') (hplus : r.plus = r'.plus)
+    (h : ∀ f ∈ reads g, obs f r = obs f r') : getterDoc r g = getterDoc r' g := by
+  cases g
+  case getCrc =>
+    simp only [reads, List.mem_cons, List.not_mem_nil, or_false, forall_eq_or_imp, forall_eq, obs,
+      List.cons.injEq, and_true] at h
+    have := C03_crc_bits _ hr.config _ hr'.config h.1
+    simp only [getterDoc, this.1, this.2, h.2]
+  all_goals
+    simp only [reads, List.mem_cons, List.not_mem_nil, or_false, forall_eq_or_imp, forall_eq, obs,
+      List.cons.injEq, and_true] at h <;> simp only [getterDoc, pipeAddr, bitOf, *]
+
+/-- **C03, "a getter keeps returning the value last set".**  On the model, from any state with the
+    invariant: if no call of the history `cs` owns a field the getter `g` READS (`reads g` — for `crc`
+    that excludes the auto-ack setters too, for `listen` also `power` and the carrier-wave calls),
+    then `g` called after the history returns exactly what `g` called before it would have returned.
+    With `C03_step` for a setter just before (`C03_roundtrip`: the getter right after the setter
+    returns the documented clamped value) this is "each getter returns the clamped value last set,
+    whatever unrelated calls came in between" — about RETURN VALUES of the real getter code, not
+    about raw fields. -/
+theorem C03_getter_stable (g : Call) (cs : List Call) (s : DrvState) (h : Inv s)
+    (hd : ∀ c ∈ cs, c.dom s.cfg.plus) (hg : (getterDoc s.cfg g).isSome = true)
+    (hown : ∀ c ∈ cs, ∀ f ∈ reads g, owns c f = false) :
+    (exec (runCall g) (runCalls cs s).2).1 = (exec (runCall g) s).1 := by
+  obtain ⟨v, hv⟩ := Option.isSome_iff_exists.mp hg
+  obtain ⟨k1, _, k3, _⟩ := C03_history cs s h hd
+  have hcfg : (runCalls cs s).2.cfg = (docRun cs s.abs).2.r := congrArg CfgSt.r k3
+  have hplus : (runCalls cs s).2.cfg.plus = s.cfg.plus := by rw [hcfg]; exact docRun_plus cs s.abs
+  have hsame : getterDoc (runCalls cs s).2.cfg g = getterDoc s.cfg g :=
+    C03_getter_reads g _ _ k1.ok h.ok hplus
+      (fun f hf => C03_getter_agrees_model f cs s h hd (fun c hc => hown c hc f hf))
+  have h1 := (C03_getter_returns g cs s h hd).2 v (hsame.trans hv)
+  have h2 := (C03_getter_returns g [] s h (by simp)).2 v hv
+  exact h1.1.trans h2.1.symm
+
+/-- **C03, "the getter returns the value last set" — composed.**  On the model, from any state with
+    the invariant: a call `c` the documentation accepts (typically a setter; `a'` is the documented
+    state after it), then ANY history `cs` none of whose calls owns a field the getter `g` reads, then
+    `g`: it returns the documented decoding `v` of the registers AS THE SETTER LEFT THEM.  (With
+    `C03_roundtrip`, which computes that value for 15 setter/getter pairs — e.g. `clampI 0 15 n` for
+    `arc = n` — this is the MANIFEST's "each getter returns the clamped value last set".) -/
+theorem C03_value_last_set (c g : Call) (cs : List Call) (s : DrvState) (h : Inv s) (hc : c.dom s.cfg.plus)
+    (hd : ∀ c' ∈ cs, c'.dom s.cfg.plus) (a' : CfgSt) (r0 : Ret) (hset : docStep c s.abs = .ok (a', r0))
+    (v : Ret) (hget : getterDoc a'.r g = some (.ok v))
+    (hown : ∀ c' ∈ cs, ∀ f ∈ reads g, owns c' f = false) :
+    (exec (runCall g) (runCalls cs (exec (runCall c) s).2).2).1 = .ok v := by
+  obtain ⟨i1, i2, _, _⟩ := C03_step c s h hc
+  obtain ⟨_, habs⟩ := i2 a' r0 hset
+  have hcfg : (exec (runCall c) s).2.cfg = a'.r := congrArg CfgSt.r habs
+  have hplus : (exec (runCall c) s).2.cfg.plus = s.cfg.plus := by
+    rw [hcfg]; exact docStep_plus hset
+  have hd1 : ∀ c' ∈ cs, c'.dom (exec (runCall c) s).2.cfg.plus := fun c' hc' => by rw [hplus]; exact hd c' hc'
+  have hg1 : getterDoc (exec (runCall c) s).2.cfg g = some (.ok v) := by rw [hcfg]; exact hget
+  rw [C03_getter_stable g cs _ i1 hd1 (by rw [hg1]; rfl) hown]
+  exact ((C03_getter_returns g [] _ i1 (by simp)).2 _ hg1).1
+
 /-! ### non-vacuity -/
 
 /-- a concrete state satisfying `Inv`: a fresh plus-variant world after `__init__` and `__enter__` -/
@@ -265,5 +447,49 @@ example :
     (docRun cs s0.abs).1 = [.ok .unit, .ok .unit, .error .valueError, .ok .unit, .ok .unit, .ok .unit,
       .ok (.nat 90), .ok (.nat 15)] := by
   decide +kernel
+
+/-- `C03_getter_returns` instantiated (hypotheses `Inv s0`: `C03_nonvacuous_inv` below; domain and
+    values by kernel evaluation of the MODEL run): the reviewer's example — `crc = 0` then
+    `set_auto_ack(True, 1)`: `crc` returns 1 although no call after the setter owns the CRC bits;
+    `listen`, `ack`, `arc`, `get_payload_length(9)` (the documented `IndexError`) likewise. -/
+example :
+    let cs : List Call := [.setChannel 90, .setAutoAckAttr (.b false), .setCrc 0, .getCrc,
+      .setAutoAck true (some 1), .setArc 99, .setAck true, .setListen true]
+    let s' := (runCalls cs s0).2
+    (∀ c ∈ cs, c.dom s0.cfg.plus) ∧ (runCalls cs s0).1.getD 3 (.ok .unit) = .ok (.nat 0) ∧
+    getterDoc s'.cfg .getCrc = some (.ok (.nat 1)) ∧ (exec (runCall .getCrc) s').1 = .ok (.nat 1) ∧
+    getterDoc s'.cfg .getListen = some (.ok (.bool true)) ∧ (exec (runCall .getListen) s').1 = .ok (.bool true) ∧
+    getterDoc s'.cfg .getAck = some (.ok (.bool true)) ∧ (exec (runCall .getAck) s').1 = .ok (.bool true) ∧
+    getterDoc s'.cfg .getArc = some (.ok (.nat 15)) ∧ (exec (runCall .getArc) s').1 = .ok (.nat 15) ∧
+    getterDoc s'.cfg .getChannel = some (.ok (.nat 90)) ∧ (exec (runCall .getChannel) s').1 = .ok (.nat 90) ∧
+    getterDoc s'.cfg (.getPayloadLength 9) = some (.error .indexError) ∧
+    (exec (runCall (.getPayloadLength 9)) s').1 = .error .indexError := by
+  decide +kernel
+
+/-- the state used below satisfies the invariant -/
+example : Inv (exec (runCall (.setCrc 2)) s0).2 := (C03_step (.setCrc 2) s0 C03_nonvacuous_inv trivial).1
+
+/-- `C03_getter_stable` instantiated: after `crc = 2` on `s0`, a history of seven calls none of
+    which owns `crcBits` or `autoAck` (domain and ownership by kernel evaluation) — `crc` returns 2
+    before and after (model run) -/
+example :
+    let s1 := (exec (runCall (.setCrc 2)) s0).2
+    let cs : List Call := [.setChannel 5, .setArd 1000, .setPower false, .setListen true, .getCrc,
+      .setDynamicPayloads false none, .openRxPipe 0 [1, 2, 3]]
+    (∀ c ∈ cs, c.dom s1.cfg.plus) ∧ (getterDoc s1.cfg .getCrc).isSome = true ∧
+    (∀ c ∈ cs, ∀ f ∈ reads .getCrc, owns c f = false) ∧
+    (exec (runCall .getCrc) s1).1 = .ok (.nat 2) ∧ (exec (runCall .getCrc) (runCalls cs s1).2).1 = .ok (.nat 2) := by
+  decide +kernel
+
+/-- `C03_value_last_set` instantiated on `s0`: `arc = 99` is accepted, the documented state after it
+    decodes to ARC = 15, the six calls in between own neither ARC (so `set_auto_retries` / `arc` are
+    excluded, `ard` is not) — all hypotheses by kernel evaluation; and the model run agrees -/
+example :
+    let cs : List Call := [.setArd 1000, .setChannel 5, .setListen true, .setCrc 1, .getArc, .setPower false]
+    (Call.setArc 99).dom s0.cfg.plus ∧ (∀ c' ∈ cs, c'.dom s0.cfg.plus) ∧
+    (∃ a', docStep (.setArc 99) s0.abs = .ok (a', .unit) ∧ getterDoc a'.r .getArc = some (.ok (.nat 15))) ∧
+    (∀ c' ∈ cs, ∀ f ∈ reads .getArc, owns c' f = false) ∧
+    (exec (runCall .getArc) (runCalls cs (exec (runCall (.setArc 99)) s0).2).2).1 = .ok (.nat 15) := by
+  refine ⟨trivial, by decide +kernel, ⟨_, rfl, by decide +kernel⟩, by decide +kernel, by decide +kernel⟩
 
 end Nrf.Props.C03
